@@ -1389,4 +1389,259 @@ theorem FAC_2DSC_ge : 2 * FAC_DSC_THRESHOLD ≤ FAC_2DSC_THRESHOLD := by decide
 
 end Fac
 
+/-! ## mpz_remove -/
+
+/-- [F^(2^(p-1)), ..., F^2, F^1]: the powers the second phase of mpz_remove walks through -/
+def downList (F : ℕ) : ℕ → List ℕ
+  | 0 => []
+  | p + 1 => F ^ 2 ^ p :: downList F p
+
+/-- fpow[p], ..., fpow[0] -/
+def powList (F p : ℕ) : List ℕ := F ^ 2 ^ p :: downList F p
+
+theorem removeUp_spec (F a : ℕ) (hF : 2 ≤ F) : ∀ fuel dest p, 1 ≤ dest → a = dest * F ^ (2 ^ p - 1) →
+    a < 2 ^ (2 ^ (fuel + p) - 1) →
+    ∃ dest' p', removeUp fuel dest (powList F p) p = (dest', powList F p', p') ∧ 1 ≤ dest' ∧
+      a = dest' * F ^ (2 ^ p' - 1) ∧ ¬ F ^ 2 ^ p' ∣ dest' := by
+  intro fuel
+  induction fuel with
+  | zero =>
+    intro dest p hd ha hlt
+    exfalso
+    simp only [Nat.zero_add] at hlt
+    have h1 : 2 ^ (2 ^ p - 1) ≤ F ^ (2 ^ p - 1) := Nat.pow_le_pow_left hF _
+    have h2 : F ^ (2 ^ p - 1) ≤ dest * F ^ (2 ^ p - 1) := Nat.le_mul_of_pos_left _ hd
+    omega
+  | succ fuel ih =>
+    intro dest p hd ha hlt
+    rw [powList, removeUp]
+    by_cases hdiv : dest % F ^ 2 ^ p ≠ 0
+    · simp only [hdiv, ne_eq, not_false_eq_true, if_true]
+      exact ⟨dest, p, rfl, hd, ha, fun h => hdiv (Nat.mod_eq_zero_of_dvd h)⟩
+    · simp only [hdiv, if_false]
+      have hdvd : F ^ 2 ^ p ∣ dest := Nat.dvd_of_mod_eq_zero (by simpa using hdiv)
+      have hFpos : 0 < F ^ 2 ^ p := Nat.pow_pos (by omega)
+      have hd' : 1 ≤ dest / F ^ 2 ^ p := Nat.div_pos (Nat.le_of_dvd hd hdvd) hFpos
+      have hsq : F ^ 2 ^ p * F ^ 2 ^ p = F ^ 2 ^ (p + 1) := by rw [← pow_add, pow_succ]; congr 1; ring
+      have ha' : a = dest / F ^ 2 ^ p * F ^ (2 ^ (p + 1) - 1) := by
+        have hpos : 1 ≤ 2 ^ p := Nat.one_le_two_pow
+        rw [show 2 ^ (p + 1) - 1 = 2 ^ p + (2 ^ p - 1) by rw [pow_succ]; omega, pow_add, ← mul_assoc,
+          Nat.div_mul_cancel hdvd]
+        exact ha
+      have := ih (dest / F ^ 2 ^ p) (p + 1) hd' ha' (by rw [show fuel + (p + 1) = fuel + 1 + p by ring]; exact hlt)
+      rw [powList] at this
+      rw [hsq]; exact this
+
+theorem removeDown_spec (F : ℕ) (hF : 2 ≤ F) : ∀ p dest pwr, 1 ≤ dest → ¬ F ^ 2 ^ p ∣ dest →
+    dest * F ^ pwr = (removeDown (downList F p) p dest pwr).1 * F ^ (removeDown (downList F p) p dest pwr).2 ∧
+    ¬ F ∣ (removeDown (downList F p) p dest pwr).1 := by
+  intro p
+  induction p with
+  | zero => intro dest pwr _ h; simpa [downList, removeDown] using h
+  | succ p ih =>
+    intro dest pwr hd hnd
+    rw [downList, removeDown]
+    simp only [Nat.add_sub_cancel]
+    have hFpos : 0 < F ^ 2 ^ p := Nat.pow_pos (by omega)
+    by_cases hdiv : dest % F ^ 2 ^ p = 0
+    · simp only [hdiv, if_true]
+      have hdvd : F ^ 2 ^ p ∣ dest := Nat.dvd_of_mod_eq_zero hdiv
+      have hd' : 1 ≤ dest / F ^ 2 ^ p := Nat.div_pos (Nat.le_of_dvd hd hdvd) hFpos
+      have hnd' : ¬ F ^ 2 ^ p ∣ dest / F ^ 2 ^ p := by
+        intro h
+        apply hnd
+        have : F ^ 2 ^ p * F ^ 2 ^ p ∣ dest := by
+          rw [← Nat.div_mul_cancel hdvd]; exact Nat.mul_dvd_mul_right h _
+        rwa [← pow_add, show 2 ^ p + 2 ^ p = 2 ^ (p + 1) by rw [pow_succ]; ring] at this
+      obtain ⟨h1, h2⟩ := ih (dest / F ^ 2 ^ p) (pwr + 2 ^ p) hd' hnd'
+      refine ⟨?_, h2⟩
+      rw [← h1, pow_add]
+      conv_lhs => rw [← Nat.div_mul_cancel hdvd]
+      ring
+    · simp only [hdiv, if_false]
+      exact ih dest pwr hd (fun h => hdiv (Nat.mod_eq_zero_of_dvd h))
+
+theorem ctzAux_spec : ∀ fuel a, a ≠ 0 → a < 2 ^ fuel →
+    a = (a >>> ctzAux fuel a) * 2 ^ ctzAux fuel a ∧ (a >>> ctzAux fuel a) % 2 = 1 := by
+  intro fuel
+  induction fuel with
+  | zero => intro a h0 h; simp at h; omega
+  | succ fuel ih =>
+    intro a h0 hlt
+    rw [ctzAux]
+    by_cases h : a % 2 = 1 ∨ a = 0
+    · simp only [h, if_true, Nat.shiftRight_zero, pow_zero, mul_one, true_and]; omega
+    · simp only [h, if_false]
+      have h2 : a / 2 ≠ 0 := by omega
+      obtain ⟨e1, e2⟩ := ih (a / 2) h2 (by rw [pow_succ] at hlt; omega)
+      have hs : a >>> (1 + ctzAux fuel (a / 2)) = (a / 2) >>> ctzAux fuel (a / 2) := by
+        rw [Nat.shiftRight_add, Nat.shiftRight_one]
+      rw [hs]
+      refine ⟨?_, e2⟩
+      rw [pow_add, pow_one, ← mul_assoc, mul_comm _ 2, mul_assoc, ← e1]; omega
+
+theorem mpz_remove_nat (a F : ℕ) (ha : a ≠ 0) (hF : 3 ≤ F) :
+    a = (removeDown ((removeUp (a.log2 + 2) a [F] 0).2.1.drop 1) (removeUp (a.log2 + 2) a [F] 0).2.2
+          (removeUp (a.log2 + 2) a [F] 0).1 (2 ^ (removeUp (a.log2 + 2) a [F] 0).2.2 - 1)).1 *
+        F ^ (removeDown ((removeUp (a.log2 + 2) a [F] 0).2.1.drop 1) (removeUp (a.log2 + 2) a [F] 0).2.2
+          (removeUp (a.log2 + 2) a [F] 0).1 (2 ^ (removeUp (a.log2 + 2) a [F] 0).2.2 - 1)).2 ∧
+    ¬ F ∣ (removeDown ((removeUp (a.log2 + 2) a [F] 0).2.1.drop 1) (removeUp (a.log2 + 2) a [F] 0).2.2
+          (removeUp (a.log2 + 2) a [F] 0).1 (2 ^ (removeUp (a.log2 + 2) a [F] 0).2.2 - 1)).1 := by
+  have hlt : a < 2 ^ (2 ^ (a.log2 + 2 + 0) - 1) := by
+    have h1 : a < 2 ^ (a.log2 + 1) := Nat.lt_log2_self
+    have h2 : a.log2 + 1 ≤ 2 ^ (a.log2 + 2 + 0) - 1 := by
+      have : a.log2 + 2 < 2 ^ (a.log2 + 2) := Nat.lt_two_pow_self
+      simp only [Nat.add_zero]; omega
+    exact lt_of_lt_of_le h1 (Nat.pow_le_pow_right (by norm_num) h2)
+  have hinit : [F] = powList F 0 := by simp [powList, downList]
+  obtain ⟨dest', p', e, hd, ha', hnd⟩ := removeUp_spec F a (by omega) (a.log2 + 2) a 0 (by omega) (by simp) hlt
+  rw [hinit, e]
+  simp only [powList, List.drop_one, List.tail_cons]
+  obtain ⟨h1, h2⟩ := removeDown_spec F (by omega) p' dest' (2 ^ p' - 1) hd hnd
+  exact ⟨by rw [← h1]; exact ha', h2⟩
+
+theorem signed_factor (x : ℤ) (d F w : ℕ) (ha : x.natAbs = d * F ^ w) (hnd : ¬ F ∣ d) :
+    x = (if x < 0 then -(Int.ofNat d) else Int.ofNat d) * (F : ℤ) ^ w ∧
+    ¬ (F : ℤ) ∣ (if x < 0 then -(Int.ofNat d) else Int.ofNat d) := by
+  have hnd' : ¬ (F : ℤ) ∣ (d : ℤ) := fun h => hnd (Int.natCast_dvd_natCast.mp h)
+  by_cases hx : x < 0
+  · simp only [hx, if_true, Int.ofNat_eq_natCast]
+    refine ⟨?_, fun h => hnd' ((dvd_neg).mp h)⟩
+    have : x = -(x.natAbs : ℤ) := by omega
+    rw [this, ha]; push_cast; ring
+  · simp only [hx, if_false, Int.ofNat_eq_natCast]
+    refine ⟨?_, hnd'⟩
+    have : x = (x.natAbs : ℤ) := by omega
+    rw [this, ha]; push_cast; ring
+
+
+/-! ## Binomials -/
+
+theorem binomAux_eq (n : ℕ) : ∀ i, binomAux n i = n.choose i := by
+  intro i
+  induction i with
+  | zero => simp [binomAux]
+  | succ i ih =>
+    rw [binomAux, ih, ← Nat.choose_succ_right_eq]
+    exact Nat.mul_div_cancel _ (Nat.succ_pos i)
+
+theorem binom_eq_choose (n k : ℕ) : binom n k = n.choose k := by
+  unfold binom
+  by_cases h : k > n
+  · simp [h, Nat.choose_eq_zero_of_lt h]
+  · simp only [h, if_false, binomAux_eq]
+    split_ifs with h2
+    · exact Nat.choose_symm (by omega)
+    · rfl
+
+
+/-- the accumulate-and-divide loop of mpz_bin_ui (bin_ui.c:84-124) computes binomial(ni0 + k, k):
+    invariant r·nacc = binomial(ni0 + j, j)·kacc after j steps, so every DIVIDE is exact -/
+theorem binUiLoop_spec (k ni0 : ℕ) : ∀ fuel i ni nacc kacc r, 1 ≤ i → i ≤ k + 1 → k + 1 ≤ fuel + i → 1 ≤ kacc →
+    ni = ni0 + (i - 1) → r * nacc = (ni0 + (i - 1)).choose (i - 1) * kacc →
+    (binUiLoop k fuel i ni nacc kacc r).2.2 * (binUiLoop k fuel i ni nacc kacc r).1 /
+      (binUiLoop k fuel i ni nacc kacc r).2.1 = (ni0 + k).choose k := by
+  intro fuel
+  induction fuel with
+  | zero =>
+    intro i ni nacc kacc r h1 h2 h3 hk hni hinv
+    have : i = k + 1 := by omega
+    subst this
+    simp only [binUiLoop, Nat.add_sub_cancel] at *
+    rw [hinv]; exact Nat.mul_div_cancel _ hk
+  | succ fuel ih =>
+    intro i ni nacc kacc r h1 h2 h3 hk hni hinv
+    rw [binUiLoop]
+    by_cases hend : i > k
+    · simp only [hend, if_true]
+      have : i = k + 1 := by omega
+      subst this
+      simp only [Nat.add_sub_cancel] at hinv
+      rw [hinv]; exact Nat.mul_div_cancel _ hk
+    · simp only [hend, if_false]
+      obtain ⟨j, rfl⟩ : ∃ j, i = j + 1 := ⟨i - 1, by omega⟩
+      simp only [Nat.add_sub_cancel] at hni hinv ih ⊢
+      subst hni
+      -- C(m, j) (m+1) = C(m+1, j+1) (j+1)
+      have hch := Nat.add_one_mul_choose_eq (ni0 + j) j
+      have hstep : r * (nacc * (ni0 + j + 1)) = (ni0 + (j + 1)).choose (j + 1) * (kacc * (j + 1)) := by
+        rw [show ni0 + (j + 1) = ni0 + j + 1 by omega]
+        calc r * (nacc * (ni0 + j + 1)) = (r * nacc) * (ni0 + j + 1) := by ring
+          _ = (ni0 + j).choose j * kacc * (ni0 + j + 1) := by rw [hinv]
+          _ = ((ni0 + j + 1) * (ni0 + j).choose j) * kacc := by ring
+          _ = (ni0 + j + 1).choose (j + 1) * (kacc * (j + 1)) := by rw [hch]; ring
+      by_cases hov : kacc * (j + 1) / B ≠ 0
+      · simp only [hov, ne_eq, not_false_eq_true, if_true]
+        apply ih (j + 1 + 1) (ni0 + j + 1) 1 (j + 1) _ (by omega) (by omega) (by omega) (by omega) (by omega)
+        simp only [Nat.add_sub_cancel, mul_one]
+        rw [hstep, show (ni0 + (j + 1)).choose (j + 1) * (kacc * (j + 1)) = (ni0 + (j + 1)).choose (j + 1) * (j + 1) * kacc by ring,
+          Nat.mul_div_cancel _ hk]
+      · simp only [hov, if_false]
+        have hlt : kacc * (j + 1) < B := by
+          have hB : 0 < B := B_pos
+          by_contra hge
+          exact hov (Nat.pos_iff_ne_zero.mp (Nat.div_pos (by omega) hB))
+        rw [Nat.mod_eq_of_lt hlt]
+        apply ih (j + 1 + 1) (ni0 + j + 1) _ _ r (by omega) (by omega) (by omega)
+          (Nat.mul_pos hk (by omega)) (by omega)
+        simp only [Nat.add_sub_cancel]
+        exact hstep
+
+theorem mpz_bin_ui_eq (n : ℤ) (k : ℕ) :
+    mpz_bin_ui n k = if 0 ≤ n then ((n.toNat.choose k : ℕ) : ℤ)
+      else (-1) ^ k * ((((-n).toNat + k - 1).choose k : ℕ) : ℤ) := by
+  unfold mpz_bin_ui
+  have hloop : ∀ k' ni' : ℕ, (binUiLoop k' k' 1 ni' 1 1 1).2.2 * (binUiLoop k' k' 1 ni' 1 1 1).1 /
+      (binUiLoop k' k' 1 ni' 1 1 1).2.1 = (ni' + k').choose k' := fun k' ni' =>
+    binUiLoop_spec k' ni' k' 1 ni' 1 1 1 le_rfl (by omega) (by omega) le_rfl (by simp) (by simp)
+  by_cases hneg : n < 0
+  · have h0 : ¬ 0 ≤ n := by omega
+    simp only [hneg, h0, if_true, if_false]
+    have hval : ∀ k' ni' : ℕ, (k', ni') = (if (-n - 1).toNat < k then ((-n - 1).toNat, k) else (k, (-n - 1).toNat)) →
+        (ni' + k').choose k' = ((-n).toNat + k - 1).choose k := by
+      intro k' ni' h
+      have e : (-n).toNat + k - 1 = (-n - 1).toNat + k := by omega
+      rw [e]
+      split_ifs at h with hc
+      · obtain ⟨h1, h2⟩ := Prod.mk.inj h
+        rw [h1, h2, add_comm]; exact Nat.choose_symm_add
+      · obtain ⟨h1, h2⟩ := Prod.mk.inj h
+        rw [h1, h2]
+    generalize hsw : (if (-n - 1).toNat < k then ((-n - 1).toNat, k) else (k, (-n - 1).toNat)) = sw
+    obtain ⟨k', ni'⟩ := sw
+    simp only
+    have := hval k' ni' hsw.symm
+    have hl := hloop k' ni'
+    generalize binUiLoop k' k' 1 ni' 1 1 1 = res at hl
+    obtain ⟨nacc, kacc, r⟩ := res
+    simp only at hl ⊢
+    rw [hl, this]
+    rcases Nat.even_or_odd k with he | ho
+    · have : k % 2 ≠ 1 := by have := Nat.even_iff.mp he; omega
+      simp [this, he.neg_one_pow]
+    · have : k % 2 = 1 := Nat.odd_iff.mp ho
+      simp [this, ho.neg_one_pow]
+  · have h0 : 0 ≤ n := by omega
+    simp only [hneg, h0, if_true, if_false]
+    by_cases hlt : n.toNat < k
+    · simp [hlt, Nat.choose_eq_zero_of_lt hlt]
+    · simp only [hlt, if_false]
+      have hval : ∀ k' ni' : ℕ, (k', ni') = (if n.toNat - k < k then (n.toNat - k, k) else (k, n.toNat - k)) →
+          (ni' + k').choose k' = n.toNat.choose k := by
+        intro k' ni' h
+        split_ifs at h with hc
+        · obtain ⟨h1, h2⟩ := Prod.mk.inj h
+          rw [h1, h2, show k + (n.toNat - k) = n.toNat by omega]; exact Nat.choose_symm (by omega)
+        · obtain ⟨h1, h2⟩ := Prod.mk.inj h
+          rw [h1, h2, show n.toNat - k + k = n.toNat by omega]
+      generalize hsw : (if n.toNat - k < k then (n.toNat - k, k) else (k, n.toNat - k)) = sw
+      obtain ⟨k', ni'⟩ := sw
+      simp only
+      have := hval k' ni' hsw.symm
+      have hl := hloop k' ni'
+      generalize binUiLoop k' k' 1 ni' 1 1 1 = res at hl
+      obtain ⟨nacc, kacc, r⟩ := res
+      simp only at hl ⊢
+      rw [hl, this]; rfl
+
 end Mpir.Numth
